@@ -23,6 +23,15 @@ CHECKS = {
  "C11": dict(cat="model_checking", tech="explicit-state BFS to closure over the nested universe with detach/overwrite/re-attach/dispose and stale handles",
    text="Closure over the nested universe extended with detach-by-remove, detach-by-overwrite, re-attach elsewhere and dispose; handles obtained before detachment are used afterwards while the former parent keeps changing; after every transition the former parent equals its model (content, verifier, persisted form after commit+reopen), the detached child is a standalone value with unchanged value ID reloadable by slab ID, and storage IDs == reachable IDs with detached containers counted as roots.",
    note="Children detached by PopIterate of their parent are destroyed by contract and not reused; a container is never attached twice.", ref="§5 C11"),
+ "C03": dict(cat="model_checking", tech="explicit-state BFS with commits as alphabet operations; crash-recovery oracle at every visited state",
+   text="Every history over a persistent array + map (+ nested children + a temporary-address container) with every placement of the three commit kinds; every visited state is a crash point: no ledger mutation outside a commit, ledger byte-identical to the snapshot at the last commit, and a brand-new storage over a copy of the ledger reconstructs every container with the model content at commit time (verifiers, reachability); no register under the zero address. Also depth-bounded around multi-level trajectory states.",
+   note="Crash points lie between operations and right before/after commits; slab-index allocation is not treated as a register write.", ref="§5 C03"),
+ "C08": dict(cat="model_checking", tech="explicit-state BFS with commit / drop-cache / reopen events as alphabet operations; differential (event-free twin) oracle",
+   text="Every placement of {commit, commit+drop cache, commit+reopen} between operations (events are alphabet operations of the BFS); on every visited state the per-operation results equal those of the same history replayed without events, content equals the model, and final registers are byte-identical to the event-free twin unless the history ever used the compact-map encoding (then content-equal).",
+   note="Handles are re-obtained after reopen (all) and after cache drop (children); histories that ever committed a compact-map register are exempt from byte identity as the property states.", ref="§5 C08"),
+ "C15": dict(cat="model_checking", tech="explicit-state BFS to closure of the storage state machine on the real PersistentSlabStorage vs a three-map model",
+   text="Closure of the write-set / cache / ledger state machine over 3 (quick) or 4 (thorough) identifiers under two owners and the temporary address with two versions, plus a 12-identifier universe for the parallel preload path: all API transitions incl. both commits with every failing-mutation position, drops, every preload subset and storage re-creation; after every transition the three layers and every observer agree with the model.",
+   note="State = the model triple (ledger, write set, cache); the real layers are read through the verif hook and compared after every transition.", ref="§5 C15"),
  "C09": dict(cat="model_checking", tech="explicit-state BFS; independent reachability oracle (storage IDs == reachable IDs) before and after commit",
    text="With the harness disposing of every value handed back, after every transition (and again after commit) the slab IDs held by write set + ledger must equal the IDs reachable from live roots by an independent traversal, each referenced once, one owner per tree; alphabets are biased to auxiliary slabs (externalised values/keys, inline<->standalone children, bulk pops).",
    note="CheckStorageHealth is used only as a second opinion (C20 decides its trustworthiness).", ref="§5 C09"),
